@@ -51,6 +51,7 @@ impl PackageExports {
             type_env: self.type_env.clone(),
             trait_env: self.trait_env.clone(),
             value_env: self.value_env.clone(),
+            fn_bounds: indexmap::IndexMap::new(),
         }
     }
 }
